@@ -1542,15 +1542,6 @@ func (ms *MetricsSegment) rotateSegment(forceRotate bool) error {
 		return err
 	}
 
-	if forceRotate && metricsMEntryWalState.wal != nil {
-		err = metricsMEntryWalState.wal.DeleteWAL()
-		if err != nil {
-			log.Errorf("rotateSegment: failed to delete metrics meta entry wal err = %v", err)
-			return err
-		}
-		metricsMEntryWalState.wal = nil
-	}
-
 	return blob.UploadIngestNodeDir()
 }
 
@@ -1639,6 +1630,7 @@ func (ms *MetricsSegment) getMetaEntry(finalDir string, suffix uint64) *structs.
 
 func ForceFlushMetricsBlock() {
 	wg := sync.WaitGroup{}
+	var numFailed atomic.Int32
 	for _, mSegment := range GetAllMetricsSegments() {
 		if mSegment.mSegEncodedSize == 0 {
 			continue
@@ -1649,12 +1641,23 @@ func ForceFlushMetricsBlock() {
 			mSeg.rwLock.Lock()
 			err := mSeg.CheckAndRotate(true)
 			if err != nil {
+				numFailed.Add(1)
 				log.Errorf("ForceFlushMetricsBlock: Failed to rotate metrics segment %+v on shutdown, err=%v", mSeg, err)
 			}
 			mSeg.rwLock.Unlock()
 		}(mSegment)
 	}
 	wg.Wait()
+	// The meta entry WAL is one file for all the segments: drop it only when every segment
+	// with data is registered in metricmeta.json; otherwise the next start replays it.
+	if numFailed.Load() == 0 && metricsMEntryWalState.wal != nil {
+		err := metricsMEntryWalState.wal.DeleteWAL()
+		if err != nil {
+			log.Errorf("ForceFlushMetricsBlock: failed to delete metrics meta entry wal err = %v", err)
+		} else {
+			metricsMEntryWalState.wal = nil
+		}
+	}
 	for _, ttholder := range GetAllTagsTreeHolders() {
 		wg.Add(1)
 		go func(tth *TagsTreeHolder) {
